@@ -10,7 +10,8 @@ import (
 // Map model: a map value is a Ref; contents live in
 //   MD:<K>            : Array Ref (Array K Bool)     domain
 //   MV:<K>:<i>:<V>    : Array Ref (Array K V)        i-th leaf of the value type
-// len(m) = mcard(dom); range enumerates mkeys(dom, 0..card-1) in an arbitrary duplicate-free order.
+//   ML:<K>            : Array Ref Int                ghost length, updated by insert/delete
+// range enumerates mkeys(rangeId, 0..len-1) in an arbitrary duplicate-free order.
 
 func (u *Unit) mapKeySort(mt *types.Map) *Sort {
 	s := u.leafSort(mt.Key())
@@ -102,37 +103,19 @@ func (u *Unit) assumeLeafInvs(v *SV, t types.Type, st *State, guard *Term) {
 	}
 }
 
-func (u *Unit) mcard(ks *Sort, dom *Term) *Term {
-	c := u.c
-	f := c.Func("mcard_"+sanitizeSym(ks.Name), []*Sort{ArraySort(ks, SBool)}, SInt)
-	if dom.Op == "constarr" {
-		return c.Int(0)
-	}
-	r := c.App(f, dom)
-	key := fmt.Sprintf("card|%d", dom.id)
-	if !u.invDone[key] {
-		u.invDone[key] = true
-		u.assume(nil, c.Le(c.Int(0), r))
-		// unfold one level of store so that updates change the cardinality as expected
-		if dom.Op == "store" {
-			prev, k, b := dom.Args[0], dom.Args[1], dom.Args[2]
-			pc := u.mcard(ks, prev)
-			had := c.Select(prev, k)
-			u.assume(nil, c.Eq(r, c.Add(pc, c.Ite(b, c.Ite(had, c.Int(0), c.Int(1)), c.Ite(had, c.Int(-1), c.Int(0))))))
-		}
-		if dom.Op == "ite" {
-			u.assume(nil, c.Eq(r, c.Ite(dom.Args[0], u.mcard(ks, dom.Args[1]), u.mcard(ks, dom.Args[2]))))
-		}
-	}
-	return r
+func (u *Unit) mapLenArr(st *State, ks *Sort) *Term {
+	return u.heapGet(st, "ML:"+ks.Name, ArraySort(SRef, SInt))
 }
 
+// mapLen: len(m) is ghost state ML[m], kept in step with the domain by every insert and delete.
 func (u *Unit) mapLen(st *State, mt *types.Map, m *Term) *Term {
 	c := u.c
 	ks := u.mapKeySort(mt)
-	domArr := u.mapDom(st, ks)
-	u.assume(nil, c.Eq(c.Select(domArr, c.Nil()), c.ConstArray(ArraySort(ks, SBool), c.False())))
-	return u.mcard(ks, c.Select(domArr, m))
+	arr := u.mapLenArr(st, ks)
+	n := c.Select(arr, m)
+	u.assume(nil, c.Le(c.Int(0), n))
+	u.assume(nil, c.Eq(c.Select(arr, c.Nil()), c.Int(0)))
+	return n
 }
 
 func (u *Unit) execLookup(fc *frameCtx, st *State, pc *Term, t *ssa.Lookup) {
@@ -163,9 +146,19 @@ func (u *Unit) mapWrite(fc *frameCtx, st *State, pc *Term, mt *types.Map, m, k *
 	u.checkMapWrite(fc, pc, m)
 	dk := "MD:" + ks.Name
 	domArr := u.mapDom(st, ks)
+	had := c.Select(c.Select(domArr, m), k)
 	nd := c.Store(c.Select(domArr, m), k, c.Bool(present))
 	st.heap[dk] = c.Store(domArr, m, nd)
-	u.mcard(ks, nd)
+	la := u.mapLenArr(st, ks)
+	oldLen := c.Select(la, m)
+	u.assume(nil, c.Le(c.Int(0), oldLen))
+	var newLen *Term
+	if present {
+		newLen = c.Add(oldLen, c.Ite(had, c.Int(0), c.Int(1)))
+	} else {
+		newLen = c.Sub(oldLen, c.Ite(had, c.Int(1), c.Int(0)))
+	}
+	st.heap["ML:"+ks.Name] = c.Store(la, m, newLen)
 	if present {
 		leaves := v.leaves(nil)
 		for i, ml := range u.mapValLeaves(mt) {
@@ -212,30 +205,23 @@ func (u *Unit) execMapUpdate(fc *frameCtx, st *State, pc *Term, t *ssa.MapUpdate
 
 func (u *Unit) mapEnumFns(ks *Sort) (keys, idx *FuncDecl) {
 	c := u.c
-	ds := ArraySort(ks, SBool)
-	return c.Func("mkeys_"+sanitizeSym(ks.Name), []*Sort{ds, SInt}, ks), c.Func("midx_"+sanitizeSym(ks.Name), []*Sort{ds, ks}, SInt)
+	return c.Func("mkeys_"+sanitizeSym(ks.Name), []*Sort{SInt, SInt}, ks), c.Func("midx_"+sanitizeSym(ks.Name), []*Sort{SInt, ks}, SInt)
 }
 
-// enumAxioms: mkeys(dom, 0..card) is a duplicate-free enumeration of dom.
-func (u *Unit) enumAxioms(ks *Sort, dom *Term) {
-	key := fmt.Sprintf("enum|%d", dom.id)
-	if u.invDone[key] {
-		return
-	}
-	u.invDone[key] = true
+// enumAxioms: mkeys(id, 0..n) is a duplicate-free enumeration of dom (id identifies one execution of a range statement).
+func (u *Unit) enumAxioms(ks *Sort, id, dom, n, guard *Term) {
 	c := u.c
 	keys, idx := u.mapEnumFns(ks)
-	n := u.mcard(ks, dom)
 	i := c.BoundVar("ei", SInt)
-	ki := c.App(keys, dom, i)
-	u.assume(nil, c.Forall([]*Term{i},
-		c.Implies(c.And(c.Le(c.Int(0), i), c.Lt(i, n)), c.And(c.Select(dom, ki), c.Eq(c.App(idx, dom, ki), i))),
+	ki := c.App(keys, id, i)
+	u.assume(guard, c.Forall([]*Term{i},
+		c.Implies(c.And(c.Le(c.Int(0), i), c.Lt(i, n)), c.And(c.Select(dom, ki), c.Eq(c.App(idx, id, ki), i))),
 		[]*Term{ki}))
 	k := c.BoundVar("ek", ks)
-	ik := c.App(idx, dom, k)
-	u.assume(nil, c.Forall([]*Term{k},
-		c.Implies(c.Select(dom, k), c.And(c.Le(c.Int(0), ik), c.Lt(ik, n), c.Eq(c.App(keys, dom, ik), k))),
-		[]*Term{ik}))
+	ik := c.App(idx, id, k)
+	u.assume(guard, c.Forall([]*Term{k},
+		c.Implies(c.Select(dom, k), c.And(c.Le(c.Int(0), ik), c.Lt(ik, n), c.Eq(c.App(keys, id, ik), k))),
+		[]*Term{ik}, []*Term{c.mk("select", "", SBool, dom, k)}))
 }
 
 func (u *Unit) execRange(fc *frameCtx, st *State, pc *Term, t *ssa.Range) {
@@ -249,8 +235,10 @@ func (u *Unit) execRange(fc *frameCtx, st *State, pc *Term, t *ssa.Range) {
 	domArr := u.mapDom(st, ks)
 	u.assume(nil, c.Eq(c.Select(domArr, c.Nil()), c.ConstArray(ArraySort(ks, SBool), c.False())))
 	dom := c.Select(domArr, m)
-	u.enumAxioms(ks, dom)
-	st.iters[t] = &iterState{m: m, dom: dom, pos: c.Int(0), kind: "map", mt: mt}
+	n := u.mapLen(st, mt, m)
+	id := c.Fresh("rng", SInt)
+	u.enumAxioms(ks, id, dom, n, pc)
+	st.iters[t] = &iterState{m: m, dom: dom, pos: c.Int(0), kind: "map", mt: mt, id: id, n: n}
 	fc.vals[t] = leaf(c.Nil())
 }
 
@@ -261,10 +249,10 @@ func (u *Unit) execNext(fc *frameCtx, st *State, pc *Term, t *ssa.Next) {
 		panic(unsupported("next on unknown iterator"))
 	}
 	ks := u.mapKeySort(it.mt)
-	n := u.mcard(ks, it.dom)
+	n := it.n
 	ok := c.Lt(it.pos, n)
 	keys, _ := u.mapEnumFns(ks)
-	k := c.App(keys, it.dom, it.pos)
+	k := c.App(keys, it.id, it.pos)
 	u.assumeTypeInv(k, it.mt.Key(), st, c.And(pc, ok))
 	// value as currently stored (entries deleted during iteration would be skipped by Go; we require
 	// that ranged-over maps are not mutated inside the loop: checked in loop analysis)
